@@ -13,15 +13,19 @@
  *   with len unchanged, or 1 with the bytes appended/copied exactly, len + 1 <= a; byte_copy
  *   is only reached after a successful allocation (otherwise its huge n shows up as an
  *   out-of-bounds access / unwinding failure).
- * KIND 8 quote.c doit(): ANY 32-bit sain->len: the size computed is exactly 2*len+2 or the
- *   call fails; for the lengths a 48-byte machine can satisfy (len <= 23) every write of the
- *   quoting loop is inside the allocation and the result is the quoted string.
+ * KIND 8 quote.c doit(), stralloc_ready replaced by an observing stub:
+ *   QL < 0 : ANY 32-bit sain->len, the stub refuses: the size asked for is exactly 2*len+2
+ *            in true arithmetic, or doit fails with ENOMEM before asking;
+ *   QL >= 0: sain->len == QL (grid), the stub hands out an object of exactly the size asked
+ *            for: every write of the quoting loop is inside it, result is the quoted string.
  *
- * malloc/realloc are tiny_alloc.h: requests above TA_POOLSZ bytes are refused (legal for
- * an allocator), granted objects are exactly-sized, every request is recorded. */
+ * KIND 0-4 never touch the object: malloc/realloc record the size and return a fixed
+ * one-byte object or NULL.  KIND 5-7 use tiny_alloc.h: requests above TA_POOLSZ bytes are
+ * refused (legal for an allocator), granted objects are exactly-sized, requests recorded. */
 #include "verif.h"
 #include <errno.h>
 #include <stdint.h>
+#include <stddef.h>
 #include "stralloc.h"
 
 #ifndef KIND
@@ -29,26 +33,22 @@
 #endif
 
 #if KIND == 2
-#define TA_POOLSZ 4096
 #include "prioq.h"
 typedef prioq GA; typedef struct prioq_elt ELT;
 #define FIELD p
 extern int prioq_readyplus();
 #define CALL(x, n) prioq_readyplus(x, n)
 #elif KIND == 3
-#define TA_POOLSZ 4096
 #include "token822.h"
 typedef token822_alloc GA; typedef struct token822 ELT;
 #define FIELD t
 #define CALL(x, n) token822_readyplus(x, n)
 #elif KIND == 4
-#define TA_POOLSZ 1024
 #include "ipalloc.h"
 typedef ipalloc GA; typedef struct ip_mx ELT;
 #define FIELD ix
 #define CALL(x, n) ipalloc_readyplus(x, n)
 #elif KIND <= 1
-#define TA_POOLSZ 64
 typedef stralloc GA; typedef char ELT;
 #define FIELD s
 #if KIND == 0
@@ -56,12 +56,51 @@ typedef stralloc GA; typedef char ELT;
 #else
 #define CALL(x, n) stralloc_ready(x, n)
 #endif
-#elif KIND == 8
-#define TA_POOLSZ 48
-#else
-#define TA_POOLSZ 32
 #endif
+
+#if KIND <= 4
+/* recording allocator: the object is never looked at by the code under test */
+#define TA_POOLS 2
+unsigned char ta_fail[TA_POOLS];          /* INPUT: the i-th request is refused */
+static unsigned int ta_calls;
+static size_t ta_req[TA_POOLS];
+static void *ta_oldarg;
+static char ta_oldobj[1], ta_newobj[1];
+static void *ta_get(size_t size)
+{
+  unsigned int idx = ta_calls++;
+  CHECK(idx < TA_POOLS, "C20(alloc): at most one allocator call");
+  ASSUME(idx < TA_POOLS);
+  ta_req[idx] = size;
+  return ta_fail[idx] ? 0 : (void *) ta_newobj;
+}
+void *vf_malloc(size_t size) { return ta_get(size); }
+void *vf_realloc(void *p, size_t size) { ta_oldarg = p; return ta_get(size); }
+void vf_free(void *p) { CHECK(0, "C20(alloc): readyplus never frees"); }
+#elif KIND <= 7
+#define TA_POOLSZ 32
 #include "tiny_alloc.h"
+#else
+#ifndef QL
+#define QL -1
+#endif
+#define TA_POOLSZ (QL < 0 ? 4 : 2 * QL + 2)
+unsigned char ta_fail[1];
+static unsigned int ta_calls;
+static size_t ta_req[2];
+static char qbuf[TA_POOLSZ];
+int stralloc_ready(stralloc *x, unsigned int n)      /* observing stand-in (stralloc_eady.c is KIND 0/1) */
+{
+  CHECK(ta_calls == 0, "C20(quote): one allocation request");
+  ASSUME(ta_calls == 0);
+  ta_req[ta_calls++] = n;
+  if (QL < 0 || ta_fail[0]) { errno = ENOMEM; return 0; }
+  CHECK(n == TA_POOLSZ, "C20(quote): asks for exactly 2*len+2 bytes");
+  ASSUME(n == TA_POOLSZ);
+  x->s = qbuf; x->a = n;                                /* an object of exactly the size asked for */
+  return 1;
+}
+#endif
 
 #if KIND == 8
 #include "gen_quote.c"
@@ -70,8 +109,10 @@ typedef stralloc GA; typedef char ELT;
 #define OLDMAX 12
 unsigned int in_len, in_a, in_n;        /* ANY 32-bit values */
 unsigned int in_alloc;                  /* 0: field is NULL */
+#if KIND >= 5
 unsigned int in_osz;                    /* bytes of the pre-existing object */
 unsigned char in_old[OLDMAX];           /* its contents */
+#endif
 #if KIND >= 5
 unsigned char in_src[TA_POOLSZ];        /* bytes to append / copy / quote */
 #endif
@@ -82,10 +123,10 @@ void sym_inputs(void)
 #ifdef REPLAY
 #include "replay_inputs.inc"
 #else
-  SYM(in_len); SYM(in_a); SYM(in_n); SYM(in_alloc); SYM(in_osz); SYM_ARR(in_old); SYM(in_ch);
+  SYM(in_len); SYM(in_a); SYM(in_n); SYM(in_alloc); SYM(in_ch);
   SYM_ARR(ta_fail);
 #if KIND >= 5
-  SYM_ARR(in_src);
+  SYM(in_osz); SYM_ARR(in_old); SYM_ARR(in_src);
 #endif
 #endif
 }
@@ -95,14 +136,11 @@ void vmain(void)
 {
   GA x;
   char *old = 0;
-  unsigned int i;
   uint64_t need;
   int rc;
   sym_inputs();
-  ASSUME(in_osz <= OLDMAX);
   if (in_alloc) {
-    old = (char *) ta_preexisting(in_osz);
-    for (i = 0; i < OLDMAX; ++i) { if (i >= in_osz) break; old[i] = (char) in_old[i]; }
+    old = ta_oldobj;
     ASSUME(in_len <= in_a);               /* the only invariant of an allocated gen_alloc object */
   }
   x.FIELD = (ELT *) old; x.len = in_len; x.a = in_a;
@@ -115,19 +153,20 @@ void vmain(void)
 #endif
   CHECK(rc == 0 || rc == 1, "C20(alloc): returns 0 or 1");
   CHECK(ta_calls <= 1, "C20(alloc): at most one allocator call");
+  if (ta_calls == 1) {
+    CHECK((uint64_t) ta_req[0] >= need * sizeof(ELT),
+          "C20(alloc): the size given to malloc/realloc holds len+n elements in true arithmetic (no 32-bit wrap)");
+    CHECK(in_alloc ? ta_oldarg == (void *) old : ta_oldarg == 0, "C20(alloc): realloc is given the current object");
+  }
   if (rc == 1) {
     CHECK((uint64_t) x.a >= need, "C20(alloc): on success a >= len + n in true arithmetic (no 32-bit wrap)");
-    CHECK(x.FIELD != 0, "C20(alloc): on success the field is allocated");
     CHECK(x.len == (in_alloc ? in_len : 0), "C20(alloc): len unchanged (0 for a fresh object)");
     if (ta_calls == 1) {
       CHECK((uint64_t) ta_req[0] == (uint64_t) x.a * sizeof(ELT),
             "C20(alloc): the size given to malloc/realloc is exactly a*sizeof(type), without wrap");
-      CHECK((char *) x.FIELD != old || !in_alloc, "the object moved to the new allocation");
-      if (in_alloc) {
-        uint64_t keep = in_osz < ta_req[0] ? in_osz : ta_req[0];
-        for (i = 0; i < OLDMAX; ++i) { if (i >= keep) break; CHECK(((unsigned char *) x.FIELD)[i] == in_old[i], "C20(alloc): realloc keeps the old contents"); }
-        if (need > in_a && in_len > 0) WITNESS("grown");
-      } else WITNESS("fresh");
+      CHECK((char *) x.FIELD == ta_newobj, "C20(alloc): the field is the object the allocator returned");
+      if (in_alloc) { if (in_len > 0 && sizeof(ELT) * (uint64_t) x.a > 0x7fffffffULL) WITNESS("grown_above_2G"); WITNESS("grown"); }
+      else WITNESS("fresh");
     } else {
       CHECK(in_alloc && (char *) x.FIELD == old && x.a == in_a, "C20(alloc): no allocator call only when the object is already big enough");
       WITNESS("already_big_enough");
@@ -194,21 +233,21 @@ void vmain(void)
 void vmain(void)
 {
   stralloc sain, saout;
-  char *old = 0;
   unsigned int i, j, nspecial = 0;
   int rc;
   sym_inputs();
-  ASSUME(in_osz <= OLDMAX);
-  if (in_alloc) { old = (char *) ta_preexisting(in_osz); ASSUME(in_len <= in_osz); }
-  saout.s = old; saout.len = in_len; saout.a = in_alloc ? in_osz : in_a;
-  /* sain: ANY length; its bytes are only read if the output could be allocated, i.e. 2*len+2 <= TA_POOLSZ */
+  saout.s = 0; saout.len = in_len; saout.a = in_a;
+#if QL >= 0
+  in_n = QL;
+#endif
+  /* sain: its bytes are only read once the output has been allocated */
   sain.s = (char *) in_src; sain.len = in_n; sain.a = in_n;
   errno = 0;
   rc = doit(&saout, &sain);
   CHECK(rc == 0 || rc == 1, "C20(quote): returns 0 or 1");
-  if (ta_calls) CHECK((uint64_t) ta_req[ta_calls - 1] >= 2 * (uint64_t) in_n + 2, "C20(quote): allocation holds 2*len+2 bytes in true arithmetic");
+  if (ta_calls) CHECK((uint64_t) ta_req[0] == 2 * (uint64_t) in_n + 2, "C20(quote): asks for exactly 2*len+2 bytes in true arithmetic");
   if (rc == 1) {
-    CHECK(2 * (uint64_t) in_n + 2 <= (uint64_t) saout.a, "C20(quote): a >= 2*len+2 (no wrap)");
+    CHECK(ta_calls == 1, "C20(quote): success only after the allocation");
     for (i = 0; i < TA_POOLSZ; ++i) { if (i >= in_n) break; if (in_src[i] == '\r' || in_src[i] == '\n' || in_src[i] == '"' || in_src[i] == '\\') ++nspecial; }
     CHECK(saout.len == in_n + nspecial + 2 && saout.len <= saout.a, "C20(quote): output length is len + specials + 2, inside the allocation");
     CHECK(saout.s[0] == '"' && saout.s[saout.len - 1] == '"', "C20(quote): result is enclosed in double quotes");
@@ -218,12 +257,12 @@ void vmain(void)
       if (in_src[i] == '\r' || in_src[i] == '\n' || in_src[i] == '"' || in_src[i] == '\\') { CHECK(saout.s[j] == '\\', "C20(quote): special byte is backslash-quoted"); ++j; }
       CHECK((unsigned char) saout.s[j] == in_src[i], "C20(quote): bytes copied in order"); ++j;
     }
-    if (nspecial == in_n && in_n == (TA_POOLSZ - 2) / 2) WITNESS("all_special_max_len");
-    if (ta_calls == 0) WITNESS("fits_without_growth");
+    if (nspecial == in_n) WITNESS("all_special");
     WITNESS("quoted");
   } else {
     CHECK(errno == ENOMEM, "C20(quote): failure sets errno to ENOMEM");
-    if (ta_calls == 0 && in_n >= 0x7fffffffU) WITNESS("refused_2len_plus_2_wraps");
+    if (ta_calls == 0) { CHECK(2 * (uint64_t) in_n + 2 > 0xffffffffULL, "C20(quote): fails without asking only when 2*len+2 does not fit 32 bits"); WITNESS("refused_2len_plus_2_wraps"); }
+    if (ta_calls && in_n > 0x40000000U) WITNESS("asked_for_more_than_2G");
     if (ta_calls) WITNESS("refused_by_allocator");
   }
 }
